@@ -18,7 +18,9 @@ import Asn1cModel.Props.C09
   (c) oms lists exactly the OPTIONAL/DEFAULT root members, ascending, = the L2 attributes;
   (d) the PER record of INTEGER (l..u[,...]) is the X.691 layout the UPER reference codec uses:
       constrained, lb = l, ub = u, range_bits = ⌈log2(u−l+1)⌉, extensible flag as written;
-  (e) the element type of SEQUENCE OF / SET OF: a written tag is resolved like a component's tag.
+  (e) the element type of SEQUENCE OF / SET OF: a written tag is resolved like a component's tag;
+  (f) a type assignment that references (or tags) another type carries the PER records of that type; ENUMERATED,
+      CHOICE, known-multiplier string and time types always have them (findings F38 / F123 / F111 repaired).
 -/
 namespace Asn1c.Props.C10Compile
 open Asn1c Asn1c.L2 Asn1c.Impl.BerTlv Asn1c.Impl.CompileDescr
@@ -407,6 +409,82 @@ theorem empty_extensible_sequence_first_extension :
     (compileDescr f120Module {} [] "A").map (fun d => firstExtOf (specOf d)) = some (some 0) ∧
     (compileDescr f120Module { genPER := false, genOER := false } [] "A").map (fun d => firstExtOf (specOf d)) = some (some 0) := by
   decide
+
+/-! ## (f) PER records of type assignments that reference another type (findings F38 / F123 / F111 repaired) -/
+
+/-- following a reference chain with more fuel gives the same terminal type -/
+theorem terminal_mono (M : Module) : ∀ (k : Nat) (t tt : CTy), terminal M k t = some tt → terminal M (k + 1) t = some tt
+  | 0, t, tt, h => by
+    cases t <;> simp_all [terminal]
+  | k + 1, t, tt, h => by
+    cases t with
+    | ref g n =>
+      simp only [terminal] at h ⊢
+      cases hl : M.lookup n with
+      | none => simp [hl] at h
+      | some t' =>
+        simp only [hl, Option.bind_some] at h ⊢
+        exact terminal_mono M k t' tt h
+    | _ => simp_all [terminal]
+
+/-- **a reference carries the PER records of the type it references**: the descriptor generated for `B ::= A` or
+    `B ::= [5] A` has exactly the type-level PER constraint records of the descriptor generated for `A` (present or
+    absent alike), whatever `A` is — as long as the reference chain ends within the compiler's bound.  Before the repair
+    `emit_type_DEF` looked at the syntactic kind of `B` itself (a reference), so `B` had no records when `A` was a CHOICE,
+    an ENUMERATED (UPER encoding failed: F38, F123) or an unconstrained known-multiplier string (8-bit characters: F111). -/
+theorem reference_carries_per_records (M : Module) (o : Opts) (g : Option WTag) (n : String) (a tt : CTy)
+    (hl : M.lookup n = some a) (ht : terminal M 63 a = some tt) :
+    (typeEnc M o (.ref g n)).per = (typeEnc M o a).per := by
+  have h1 : terminal M M.fuel (.ref g n) = some tt := by
+    simp only [Module.fuel, terminal, hl, Option.bind_some, ht]
+  have h2 : terminal M M.fuel a = some tt := terminal_mono M 63 a tt ht
+  simp only [typeEnc, combinedOf, h1, h2]
+
+/-- **the records are there whenever the PER codecs need them**: with PER generated, the descriptor of every type
+    whose terminal type is an ENUMERATED, a CHOICE, a known-multiplier string or a time type (a VisibleString, X.680
+    46.3 / 47.3) has PER records, directly or through any chain of references and tags -/
+theorem per_records_present (M : Module) (o : Opts) (t tt : CTy) (hg : o.genPER = true)
+    (ht : terminal M M.fuel t = some tt)
+    (hk : (match tt with
+           | .enumerated _ _ _ => true | .constr _ .choice _ _ => true
+           | .str _ k _ _ => k != "UTF8String" | .prim _ .utcTime => true | .prim _ .genTime => true
+           | _ => false) = true) :
+    (typeEnc M o t).per.isSome = true := by
+  simp only [typeEnc, ht, hg, Bool.true_and]
+  cases tt with
+  | enumerated g r e => simp [tkindOf, perKind]
+  | constr g k e cs => cases k <;> simp_all [tkindOf, perKind]
+  | str g k sz al =>
+    by_cases hu : k = "UTF8String"
+    · simp [hu] at hk
+    · simp [tkindOf, perKind, hu]
+  | prim g k => cases k <;> simp_all [perKind]
+  | _ => simp at hk
+
+/-- the former witnesses: `A ::= CHOICE { a [0] NULL, b [1] INTEGER }`, `En ::= ENUMERATED { a, b, c }`, `I ::= IA5String`,
+    `Bm ::= BMPString`, `N ::= NumericString`, `T ::= GeneralizedTime`, `U ::= UTCTime` -/
+def aliasModule : Module := ⟨"none", [
+  ("A", .constr none .choice none [.mk "a" (.prim (some ⟨⟨2, 0⟩, .dflt⟩) .null) .mand, .mk "b" (.integer (some ⟨⟨2, 1⟩, .dflt⟩) none) .mand]),
+  ("En", .enumerated none [0, 1, 2] none), ("I", .str none "IA5String" none none), ("Bm", .str none "BMPString" none none),
+  ("N", .str none "NumericString" none none), ("T", .prim none .genTime), ("U", .prim none .utcTime)]⟩
+
+/-- … `B ::= A` and `E ::= [5] A` get the one-bit index record of the CHOICE (F38), `B ::= En` the two-bit record of the
+    ENUMERATED (F123), `B ::= I` / `B ::= Bm` / `B ::= N` the 7 / 16 / 4-bit character records (F111), and the named time
+    types the record of VisibleString, 7 bits 32..126 (F111); each had no PER records at all before the repair -/
+theorem former_alias_witnesses_have_per_records :
+    (typeEnc aliasModule {} (.ref none "A")).per = some (⟨2, 1, 1, 0, 1⟩, ⟨0, -1, -1, 0, 0⟩) ∧
+    (typeEnc aliasModule {} (.ref (some ⟨⟨2, 5⟩, .dflt⟩) "A")).per = some (⟨2, 1, 1, 0, 1⟩, ⟨0, -1, -1, 0, 0⟩) ∧
+    (typeEnc aliasModule {} (.ref none "En")).per = some (⟨2, 2, 2, 0, 2⟩, ⟨0, -1, -1, 0, 0⟩) ∧
+    (typeEnc aliasModule {} (.ref none "I")).per = some (⟨2, 7, 7, 0, 127⟩, ⟨1, -1, -1, 0, 0⟩) ∧
+    (typeEnc aliasModule {} (.ref none "Bm")).per = some (⟨2, 16, 16, 0, 65535⟩, ⟨1, -1, -1, 0, 0⟩) ∧
+    (typeEnc aliasModule {} (.ref none "N")).per = some (⟨2, 4, 4, 32, 57⟩, ⟨1, -1, -1, 0, 0⟩) ∧
+    (typeEnc aliasModule {} (.prim none .genTime)).per = some (⟨2, 7, 7, 32, 126⟩, ⟨1, -1, -1, 0, 0⟩) ∧
+    (typeEnc aliasModule {} (.ref none "U")).per = some (⟨2, 7, 7, 32, 126⟩, ⟨1, -1, -1, 0, 0⟩) ∧
+    (typeEnc aliasModule { genPER := false } (.ref none "A")).per = Option.none := by
+  decide
+
+/-- the hypotheses of `reference_carries_per_records` are satisfiable -/
+example : ∃ a tt, aliasModule.lookup "A" = some a ∧ terminal aliasModule 63 a = some tt := ⟨_, _, rfl, rfl⟩
 
 /-- the hypotheses of the tag theorems are satisfiable -/
 example : ValidTagDefault cexModule := Or.inr (Or.inr (Or.inl rfl))
